@@ -24,6 +24,13 @@
 (***************************************************************************)
 EXTENDS Naturals, Sequences, FiniteSets, TLC
 
+(* trees too deep for the JSON reader arrive flat: [nodes |-> <<[t, v, a, id, k: child indices]>>, root] *)
+RECURSIVE TreeAt(_, _)
+TreeAt(ns, i) ==
+  [t |-> ns[i].t, v |-> ns[i].v, a |-> ns[i].a, id |-> ns[i].id,
+   c |-> [j \in 1..Len(ns[i].k) |-> TreeAt(ns, ns[i].k[j])]]
+TreeOf(x) == IF "nodes" \in DOMAIN x THEN TreeAt(x.nodes, x.root) ELSE x
+
 Kid(n, i) == n.c[i]
 NKids(n) == Len(n.c)
 
